@@ -17,7 +17,8 @@ RULE = (
     "seeded random trees of depth <=3 incl. namedtuples and registered nodes, x leaf types {int, str, "
     "tuple[int,int], Union[int,str], Any, a user class, arrays 'a', 'a b', '*v a', '#a'} x 3 prior "
     "contexts; for each: PyTree[L], PyTree[PyTree[L]], bare PyTree, top-level None, bindings after; "
-    "every generated tree's structure is also compared with jax.tree_util; non-trivial = the tree has a "
+    "every generated tree's structure is also compared with jax.tree_util; a probe set of seven trees before and "
+    "after five kinds of raising checks (each in its own thread); non-trivial = the tree has a "
     "container that itself matches L, a None/empty container, or >=2 array leaves; distinct by (tree, L, prior)"
 )
 TRUSTED = [
@@ -114,8 +115,79 @@ def run(tier, seed, out, drv, facts):
                     gb, _ = impl_prog.run_program(before, "typeguard", rng)
                     if progcheck.last_bindings(gb) != progcheck.last_bindings(got):
                         out.violation(f"reject-binds:{name}", f"a rejected tree changed the bindings from {progcheck.last_bindings(gb)} to {progcheck.last_bindings(got)}", {"program": prog})
+    after_fault_cases(out)
+
+
+def after_fault_cases(out):
+    """an earlier check that RAISED (a registered node's flatten function, unsortable dict keys, an unbound
+    structure name in a nested PyTree, a leaf whose __instancecheck__ raises) must not change which trees
+    PyTree[L] accepts afterwards: probes before and after, each scenario in its own thread"""
+    import threading
+
+    import jaxtyping
+    from jaxtyping import Float, PyTree
+
+    Duck = impl_prog.Duck
+    L = Float[Duck, "b c"]
+    good = {"p": Duck((2, 3)), "q": [Duck((2, 3))]}
+    probes = [
+        ("all leaves match", good, PyTree[L]),
+        ("wrong dtype leaf", {"p": Duck((2, 3)), "q": Duck((2, 3), "int32")}, PyTree[L]),
+        ("wrong rank leaf", [Duck((2, 3)), Duck((2,))], PyTree[L]),
+        ("inconsistent shapes", (Duck((2, 3)), Duck((2, 4))), PyTree[L]),
+        ("non-array leaf", [Duck((2, 3)), 1], PyTree[L]),
+        ("int leaves", [1, (2, 3)], PyTree[int]),
+        ("str among int leaves", [1, ("x", 3)], PyTree[int]),
+    ]
+
+    class Boom(Exception):
+        pass
+
+    class RaisingMeta(type):
+        def __instancecheck__(cls, x):
+            raise Boom("leaf __instancecheck__")
+
+    Raising = RaisingMeta("Raising", (), {})
+    faults = {
+        "custom-flatten-raises": lambda: isinstance(impl_prog.custom_cls("FaultNode")([1, 2], Boom), PyTree[L]),
+        "unsortable-dict-keys": lambda: isinstance({1: Duck((2, 3)), "a": Duck((2, 3))}, PyTree[L]),
+        "unbound-structure-name-nested": lambda: isinstance([[1]], PyTree[PyTree[int, "S T"]]),
+        "leaf-instancecheck-raises": lambda: isinstance([object()], PyTree[Raising]),
+        "base-exception-in-flatten": lambda: isinstance(impl_prog.custom_cls("FaultNode2")([1], impl_prog.UserBaseExc), PyTree[L]),
+    }
+
+    def vec():
+        res = []
+        for _, x, t in probes:
+            with jaxtyping.jaxtyped("context"):
+                res.append(impl_prog.impl.check_once(x, t))
+        return res
+
+    for fname, fault in faults.items():
+        box = {}
+
+        def scenario():
+            box["before"] = vec()
+            try:
+                fault()
+                box["fault"] = "returned"
+            except BaseException as e:  # noqa: BLE001
+                box["fault"] = type(e).__name__
+            box["after"] = vec()
+
+        th = threading.Thread(target=scenario)
+        th.start()
+        th.join(120)
+        out.case(("after-fault", fname), True, sample={"fault": fname, "fault_outcome": box.get("fault"), "verdicts_after": box.get("after")})
+        if box.get("before") != box.get("after"):
+            k = next(i for i, (a, b) in enumerate(zip(box["before"], box["after"])) if a != b)
+            out.violation(f"after-fault:{fname}", f"after an earlier check ended with {box.get('fault')} ({fname}), the tree '{probes[k][0]}' is answered {box['after'][k]} instead of {box['before'][k]}",
+                          {"after_fault": fname})
 
 
 def replay(rep, out, drv, facts):
+    if "after_fault" in rep:
+        after_fault_cases(out)
+        return
     progcheck.compare_program(out, drv, facts, rep["program"], "replay", as_violation=as_violation)
     out.case("replay", True, sample=rep["program"])
